@@ -81,27 +81,20 @@ Theorem C12_sphinx_plain_text_single_section :
 Proof. exact sphinx_plain_text. Qed.
 Print Assumptions C12_sphinx_plain_text_single_section.
 
-(* Numpy: no dash line.  The full statement is false for the empty docstring (finding C12-F1: no section at all);
-   outside that gap the result is one text section with every line from the start offset on, in order, where only
-   blank lines may have been emptied ("whitespace on otherwise blank lines aside"). *)
-Theorem C12_numpy_plain_text_refuted_F1 :
-  exists lines o p,
-    (forall l, In l lines -> dash l = false) /\ cleandoc_post lines = true /\ lines_wf lines = true /\
-    KnownGap_F1 lines = true /\ g_start o p < List.length lines /\ n_parse lines o p = Ok [].
-Proof. exact numpy_plain_text_refuted_F1. Qed.
-Print Assumptions C12_numpy_plain_text_refuted_F1.
-
-Theorem C12_numpy_plain_text_modulo_known :
+(* Numpy: no dash line.  One text section with every line from the start offset on, in order, where only blank
+   lines may have been emptied ("whitespace on otherwise blank lines aside"); the empty docstring gives one empty
+   text section (finding C12-F1, repaired). *)
+Theorem C12_numpy_plain_text_single_section :
   forall lines o p,
     (forall l, In l lines -> dash l = false) ->
-    cleandoc_post lines = true -> lines_wf lines = true -> KnownGap_F1 lines = false ->
+    cleandoc_post lines = true -> lines_wf lines = true ->
     exists ls fc,
       n_parse lines o p = Ok (if List.length lines <=? g_start o p then [] else [SText ls fc false]) /\
       (g_start o p < List.length lines ->
        map fst ls = seq (g_start o p) (List.length lines - g_start o p) /\
        forall i b, In (i, b) ls -> b = true -> exists l, nth_error lines i = Some l /\ blank l = true).
-Proof. exact numpy_plain_text_modulo_known. Qed.
-Print Assumptions C12_numpy_plain_text_modulo_known.
+Proof. exact numpy_plain_text. Qed.
+Print Assumptions C12_numpy_plain_text_single_section.
 
 (* ---- well-formed sections: text lines exist, admonitions have a header above a non-empty block inside the
    docstring, every other section has at least one item and an existing header; Sphinx returns its text first ---- *)
